@@ -361,6 +361,19 @@ def run_scenario(flowir: str, script: Dict[str, Any], location: str, perturb_see
         res["build_error"] = "%s: %s" % (type(e).__name__, str(e)[:400])
         res["build_tb"] = traceback.format_exc()[-1500:]
         return res
+    if os.environ.get("VERIF_TRACE_EMISSIONS"):
+        for c in comps:
+            try:
+                ref = c.specification.reference
+                c.engine.stateUpdates.subscribe(
+                    on_next=lambda e, ref=ref: REC.record("engine.emit", ref, alive=e[0].get("isAlive"),
+                                                          reason=e[0].get("engineExitReason", "-"), keys=sorted(e[0])[:12]),
+                    on_error=lambda e: None)
+                c.stateUpdates.subscribe(
+                    on_next=lambda e, ref=ref: REC.record("cs.emit", ref, state=e[0].get("state"), alive=e[0].get("isAlive")),
+                    on_error=lambda e: None)
+            except Exception:
+                pass
     CTX.controller = ctrl
     CTX.rng = random.Random(perturb_seed)
     CTX.jitter_p = jitter_p
